@@ -126,16 +126,16 @@ Section Correct.
   Qed.
 
   (* two operands, then a tail that consumes them; strict in both *)
-  Lemma c_strict2 : forall sp h F st ca cb tail va vb v,
-    computes sp h F (s_stack st) ca va st ->
-    (va <> VUndef -> forall st', keeps sp st st' -> s_stack st' = val_of va :: s_stack st ->
-       computes sp h F (val_of va :: s_stack st) cb vb st') ->
+  Lemma c_strict2 : forall sp h F base basea st ca cb tail va vb v,
+    computes sp h F basea ca va st ->
+    (va <> VUndef -> forall st', keeps sp st st' -> s_stack st' = val_of va :: basea ->
+       computes sp h F (val_of va :: basea) cb vb st') ->
     (va = VUndef \/ vb = VUndef -> v = VUndef) ->
     (va <> VUndef -> vb <> VUndef -> forall st'', keeps sp st st'' ->
-       s_stack st'' = val_of vb :: val_of va :: s_stack st -> computes sp h F (s_stack st) tail v st'') ->
-    computes sp h F (s_stack st) (ca ++ cb ++ tail) v st.
+       s_stack st'' = val_of vb :: val_of va :: basea -> computes sp h F base tail v st'') ->
+    computes sp h F base (ca ++ cb ++ tail) v st.
   Proof.
-    intros sp h F st ca cb tail va vb v Ha Hb Hu Ht.
+    intros sp h F base basea st ca cb tail va vb v Ha Hb Hu Ht.
     eapply computes_bind; [exact Ha | intros E; apply Hu; left; exact E |].
     intros Na st' K S.
     eapply computes_bind; [exact (Hb Na st' K S) | intros E; apply Hu; right; exact E |].
@@ -659,5 +659,111 @@ Section Correct.
       apply step_const; (eapply step_bin; [reflexivity | reflexivity |]);
       apply step_const; (eapply step_bin; [reflexivity | reflexivity |]);
       cbn [set_stack s_stack app]; rewrite B).
+  Qed.
+
+  (* strict operators on integers *)
+  Definition on_ints2 (f : Z -> Z -> value) (va vb : value) : value :=
+    match va, vb with VInt x, VInt y => f x y | _, _ => VUndef end.
+  Definition on_int1 (f : Z -> value) (va : value) : value :=
+    match va with VInt x => f x | _ => VUndef end.
+
+  Lemma c_int2 : forall sp h F base basea st ca cb tail va vb f,
+    types_as TInt va -> types_as TInt vb ->
+    computes sp h F basea ca va st ->
+    (forall st', keeps sp st st' -> s_stack st' = val_of va :: basea ->
+       computes sp h F (val_of va :: basea) cb vb st') ->
+    (forall x y st'', keeps sp st st'' -> s_stack st'' = V64 y :: V64 x :: basea ->
+       computes sp h F base tail (f x y) st'') ->
+    computes sp h F base (ca ++ cb ++ tail) (on_ints2 f va vb) st.
+  Proof.
+    intros sp h F base basea st ca cb tail va vb f Ta Tb Ha Hb Ht.
+    eapply c_strict2; [exact Ha | intros _; exact Hb | |].
+    - intros [-> | ->]; [reflexivity | destruct va; reflexivity].
+    - intros Na Nb st'' K S.
+      destruct (int_or_undef va Ta) as [-> | [x ->]]; [contradiction|].
+      destruct (int_or_undef vb Tb) as [-> | [y ->]]; [contradiction|].
+      cbn [on_ints2]. apply Ht; assumption.
+  Qed.
+
+  Lemma c_int1 : forall sp h F base basea st ca tail va f,
+    types_as TInt va ->
+    computes sp h F basea ca va st ->
+    (forall x st'', keeps sp st st'' -> s_stack st'' = V64 x :: basea ->
+       computes sp h F base tail (f x) st'') ->
+    computes sp h F base (ca ++ tail) (on_int1 f va) st.
+  Proof.
+    intros sp h F base basea st ca tail va f Ta Ha Ht.
+    eapply computes_bind; [exact Ha | intros ->; reflexivity |].
+    intros Na st' K S. destruct (int_or_undef va Ta) as [-> | [x ->]]; [contradiction|].
+    cbn [on_int1]. apply Ht; assumption.
+  Qed.
+
+  Lemma v_arith_ints : forall op va vb, types_as TInt va -> types_as TInt vb ->
+    v_arith op va vb = on_ints2 (arith_int op) va vb.
+  Proof.
+    intros op va vb Ta Tb.
+    destruct (int_or_undef va Ta) as [-> | [x ->]]; destruct (int_or_undef vb Tb) as [-> | [y ->]]; reflexivity.
+  Qed.
+  Lemma v_cmp_ints : forall op va vb, types_as TInt va -> types_as TInt vb ->
+    v_cmp op va vb = on_ints2 (fun x y => VBool (cmp_int op x y)) va vb.
+  Proof.
+    intros op va vb Ta Tb.
+    destruct (int_or_undef va Ta) as [-> | [x ->]]; destruct (int_or_undef vb Tb) as [-> | [y ->]]; reflexivity.
+  Qed.
+  Lemma arith_int_types : forall op x y, types_as TInt (arith_int op x y).
+  Proof.
+    intros op x y. destruct op; cbn; try reflexivity;
+      try (destruct (y =? 0); reflexivity); destruct (64 <=? y); reflexivity.
+  Qed.
+  Lemma on_ints2_types : forall f va vb t, (forall x y, types_as t (f x y)) -> types_as t (on_ints2 f va vb).
+  Proof. intros f va vb t H. destruct va; try exact I. destruct vb; try exact I. apply H. Qed.
+  Lemma on_int1_types : forall f va t, (forall x, types_as t (f x)) -> types_as t (on_int1 f va).
+  Proof. intros f va t H. destruct va; try exact I. apply H. Qed.
+
+  Lemma cmp_bin : forall op x y,
+    eval_bin (cmp_op op) (V64 x) (V64 y) = Some (Some (V32 (b2z (cmp_int op x y)))).
+  Proof. intros op x y. destruct op; reflexivity. Qed.
+
+  (* the prefix of every pattern operation: the search check, then the pattern id *)
+  Lemma c_pat_prefix : forall sp h F base i c v st,
+    (forall st1, keeps sp st st1 -> s_done st1 = true -> s_stack st1 = V32 (Z.of_nat i) :: s_stack st ->
+       computes sp h F base c v st1) ->
+    computes sp h F base (search_check ++ [IConst (V32 (Z.of_nat i))] ++ c) v st.
+  Proof.
+    intros sp h F base i c v st H.
+    destruct (search_ok sp st) as [st' [K [S [D C]]]].
+    eapply computes_after; [exact K | exact C |].
+    eapply (computes_after sp h F base [IConst (V32 (Z.of_nat i))] c v st' (set_stack st' (V32 (Z.of_nat i) :: s_stack st'))).
+    - apply keeps_stack.
+    - intros rest o Hr. cbn [app]. apply step_const. exact Hr.
+    - apply H.
+      + eapply keeps_trans; [exact K | apply keeps_stack].
+      + exact D.
+      + cbn [set_stack s_stack]. rewrite S. reflexivity.
+  Qed.
+
+  Lemma read_int_shape : forall k d l o, types_as TInt (read_int k d l o).
+  Proof. intros [n sg be] d l o. unfold read_int. destruct (read_bytes d l o n); reflexivity. Qed.
+  Lemma v_offset_shape : forall m i, types_as TInt (v_offset m i).
+  Proof. intros m [z|b|s|]; cbn; try exact I. destruct (nth_match m z) as [[o l]|]; reflexivity. Qed.
+  Lemma v_length_shape : forall m i, types_as TInt (v_length m i).
+  Proof. intros m [z|b|s|]; cbn; try exact I. destruct (nth_match m z) as [[o l]|]; reflexivity. Qed.
+
+  (* a host function that answers (value, is_undef) for an integer-or-undefined value *)
+  Lemma c_call_undef_int : forall sp h F base st f args v,
+    hspec host (h_code h) F ->
+    s_stack st = rev args ++ base -> length args = host_arity f -> not_search f ->
+    types_as TInt v ->
+    host f (s_done st) args = with_undef v false ->
+    computes sp h F base (call_handle_undef f h) v st.
+  Proof.
+    intros sp h F base st f args v HF Hs Hl Hn Tv Hh.
+    destruct (int_or_undef v Tv) as [-> | [z ->]].
+    - eapply (c_call_undef sp h F base st f args 1 (V64 0)); try eassumption.
+      + intros N; contradiction.
+      + reflexivity.
+    - eapply (c_call_undef sp h F base st f args 0 (V64 z)); try eassumption.
+      + intros _. split; reflexivity.
+      + intros E; discriminate.
   Qed.
 End Correct.
